@@ -272,7 +272,7 @@ CHECKS = {
         'a condition; equal operand schemas for sets) and an expression iff its operand kinds are compatible. The verdict and '
         'the schema (names/kinds in order, dictionary semantics for repeated names) of the model are compared with the real '
         'constructors on conforming statements and on mutants violating exactly one rule, plus an independent oracle.',
-        BASE_NOTE + 'Window functions, Decimal and compound kinds are outside the generated grammar and the model.',
+        BASE_NOTE + 'Window features (RowNumber over a partition, placed in every clause) are generated and judged by the independent oracle only - they are outside the Coq grammar; Decimal and compound kinds are outside the generated grammar and the model.',
         'DESIGN.md section 5 C07',
     ),
     'C13': (
